@@ -2176,9 +2176,16 @@ class ItemSpaceImpl(DynamicSpaceImpl):
         DynamicSpaceImpl.__init__(
             self, parent, name, parent._named_itemspaces, base, refs, arguments, cache
         )
-        self._bind_args(self.arguments)
-        self._init_child_spaces(self)
-        self._init_dynbaserefs()
+        try:
+            self._bind_args(self.arguments)
+            self._init_child_spaces(self)
+            self._init_dynbaserefs()
+        except BaseException:
+            # Do not leave a half-built instance registered
+            # with its bases and its parent
+            self.on_delete()
+            parent.named_itemspaces.del_item(self.name)
+            raise
 
     def _init_root(self, parent):
         self.rootspace = self
